@@ -61,6 +61,11 @@ def shim_gap(exc):
 
 
 class StrictArray(np.ndarray):
+    def __iter__(self):
+        # iteration through the sequence protocol would end on IndexError only; a
+        # kernel array that reaches the caller (and is iterated there) is plain data
+        return iter(self.view(np.ndarray))
+
     def __getitem__(self, key):
         if isinstance(key, (int, np.integer)):
             if key < 0 or key >= self.shape[0]:
